@@ -47,6 +47,8 @@ pub struct Segment {
     pub indexes: Option<Vec<Index>>,
     pub(super) log_size_bytes: Arc<AtomicU64>,
     pub(super) index_size_bytes: Arc<AtomicU64>,
+    /// Detached tasks that finish writing a closed segment; awaited on graceful shutdown.
+    pub(super) closing_tasks: Vec<tokio::task::JoinHandle<()>>,
 }
 
 impl Segment {
@@ -108,6 +110,7 @@ impl Segment {
             config,
             log_size_bytes: Arc::new(AtomicU64::new(0)),
             index_size_bytes: Arc::new(AtomicU64::new(0)),
+            closing_tasks: Vec::new(),
         }
     }
 
@@ -287,10 +290,10 @@ impl Segment {
 
     pub async fn shutdown_writing(&mut self) {
         if let Some(log_writer) = self.log_writer.take() {
-            tokio::spawn(async move {
+            self.closing_tasks.push(tokio::spawn(async move {
                 let _ = log_writer.fsync().await;
                 log_writer.shutdown_persister_task().await;
-            });
+            }));
         } else {
             warn!(
                 "Log writer already closed when calling close() for {}",
@@ -299,10 +302,10 @@ impl Segment {
         }
 
         if let Some(index_writer) = self.index_writer.take() {
-            tokio::spawn(async move {
+            self.closing_tasks.push(tokio::spawn(async move {
                 let _ = index_writer.fsync().await;
                 drop(index_writer)
-            });
+            }));
         } else {
             warn!("Index writer already closed when calling close()");
         }
@@ -319,6 +322,11 @@ impl Segment {
 
         if let Some(index_writer) = self.index_writer.take() {
             let _ = index_writer.fsync().await;
+        }
+
+        // A segment that got full was closed by detached tasks, which may still be running.
+        for closing_task in self.closing_tasks.drain(..) {
+            let _ = closing_task.await;
         }
     }
 
